@@ -62,11 +62,26 @@ CHECKS = {
             "For 8 method set-ups x 2 directions x dense on/off x with/without events+callbacks the fault-free run numbers all user-function calls (about 4 000 sites in quick); each site is failed once with an Exception subclass and once with KeyboardInterrupt. After the fault: exception type and cause, failure status, bit-exact prefix of the fault-free rows, events a prefix, dense output covering exactly the accepted steps; after resume: ends at the target, monotone, dense invariants on the whole trajectory (exposes stale cached slopes), accuracy as good as the fault-free run, fixed-step methods bit-identical to a fresh system started at the prefix end; reset pristine. Thorough adds pairs of faults.",
             "Runs of 3-5 steps (the statement's 'enumerated exhaustively for short runs'); sites are call positions since construction, determinism verified per site.",
             "DESIGN.md 4/C12"),
+    "C13": ("model_checking",
+            "explicit-state breadth-first search over the full operation alphabet (integrate, integrate(t), dt/rtol/atol/method/tf setters, set_kick_vars, terminal-event run, faulting run, reset) with a differential oracle in every reached state",
+            "In every state reached by a history up to the depth bound: the history is rebuilt twice and must hash bit-identically; the caller's y0 / constants and the class-level coefficient tables are unchanged; a call at the current time changes nothing; reset() gives a pristine system and a subsequent integrate is bit-identical (rows and dense slopes) to a freshly constructed system with the state's current settings. Split-invariance cells compare one-call and several-call runs for 18+ methods.",
+            "Depth 3 (quick) / 4 (thorough), each setter at most once per history; 'same settings' = method, rtol, atol, tf, mask, constructor dt and dense flag.",
+            "DESIGN.md 4/C13"),
     "C17": ("exploration",
             "exhaustive enumeration of all strictly increasing arrays of length 1..7 over a 9-point grid x 21 queries (scalar and vector search, 4 container types) and of cubic/interval/evaluation-point lattices for the Hermite piece",
             "The statement's own finite quantifier is enumerated completely: 501 arrays x 21 queries x {float32, float64, longdouble, list} against min(searchsorted_left, n-1); Hermite pieces for 7 cubics x 20 ordered intervals x 37 points x scalar/array data x 3 dtypes against the cubic itself with a derived rounding bound. exhaustive=true.",
             "Hermite tolerance 64*eps*sum|basis||data| (absolute-coefficient bound); numpy.searchsorted trusted as the specification of 'first element not smaller'.",
             "DESIGN.md 4/C17"),
+    "C19": ("exploration",
+            "exhaustive enumeration of recorded grids x all integer indices in [-len-2, len+2] x a lattice of query times (recorded times and their floating-point neighbours, exact midpoints and +-2^j ulp, outside both ends) x whole-run slices, against python-list semantics",
+            "The real OdeSystem is compared with a boring reference (a python list of rows, IndexError outside, linear nearest-sample search with exact tie handling) for uniform/adaptive grids, forward/backward/through-zero/negative times, one call / continued / partial / never run, dense on/off.",
+            "Ties accept either neighbour; whole-run slices written in run order; only python ints are integer indices; dense lookups before the first step carry no claim.",
+            "DESIGN.md 4/C19"),
+    "C20": ("model_checking",
+            "explicit-state breadth-first search over histories (integrate, events, terminal event, rhs fault at its k-th call, reset, dt-assigning callback) with plain integer reference counters inside the user's functions and a callback log",
+            "In every reached state nfev must equal the number of completed user-rhs calls since construction / the last reset (exact integers, including calls made for finite-difference Jacobians, dense output and the constructor's probe), njev the number of Jacobian requests; callbacks are in the given order, see a strictly growing trajectory whose last row is the one just recorded, exactly once per recorded step (landing on a terminal event shares one), and an assigned dt is the next step of a fixed-step method.",
+            "njev convention after reset is left open; a Jacobian request that raised may or may not be counted.",
+            "DESIGN.md 4/C20"),
 }
 
 NOT_YET = "check not built yet in this session (work in progress; see DESIGN.md section 4 for the planned bounded-exhaustive design)"
